@@ -68,7 +68,16 @@ RULE = ("irreducible row-stochastic matrices with 3..7 states (thorough: ..9) fr
         "and two sparse random basins joined by a few weak links -- through mfpts to sink sets of 1..3 members (lag 1/2, 5/2, 3; populations "
         "handed in to keep the eigen-solver out) and committors, ndarray and csr (thorough: + Fortran order, csc), judged by the first-step "
         "equations evaluated in extended precision at 2^-45 of the largest mean first-passage time (the unchanged code's residual is <= 6 * 2^-52 "
-        "of it: the tolerance is 22 x the worst seen; committors: 1e-9), sink zeros, lag linearity, container agreement; BLAS limited to one thread; oracle only. non-trivial := at least 3 states and at least one state that is neither source "
+        "of it: the tolerance is 22 x the worst seen; committors: 1e-9), sink zeros, lag linearity, container agreement; BLAS limited to one thread; oracle only. "
+        "Round 3s fifth wave: (f) every case (in stream `big`: coo_array, thorough also csr_array) is also run on SciPy's sparse ARRAY classes csr_array, csc_array, coo_array, "
+        "lil_array, dok_array, bsr_array, dia_array (all the installed SciPy offers; `*` is elementwise on them), 0/1 chains also on integer / "
+        "boolean ones, the history probes overwriting their buffers in place (data arrays, LIL rows, DOK items), index sets additionally as "
+        "int16 arrays; (g) stream `negidx` (82 quick / 650 thorough): source / sink sets naming states the NumPy way from the end (i - n; -1 the "
+        "last state, -n the first, both frequent), alone and mixed with non-negative members, for committors and mfpts to sink sets on every "
+        "container and every index-set form (list, tuple, int64 / int32 / int16 / read-only arrays, column vector), in history probes (sets "
+        "negative from the start, or given negative names in place between calls), on 80..250-state sparse chains, plus a state named once "
+        "in each set under its two names (correspondence only) and indices below -n (error clause: IndexError); model and oracle work on the "
+        "states meant (i), and the call with the non-negative names is an extra reference (`negative-index-equivalence`, 1e-9). non-trivial := at least 3 states and at least one state that is neither source "
         "nor sink with a committor strictly between 0 and 1 (committors) / at least two non-sink states (mfpts)")
 TRUSTED = ["translator/tr_tpt.py (fail-closed symbolic reading of _I_m_Q / committors / mfpts into Gen/TptGen.v) and the meaning "
            "of the array vocabulary Base/TptBase.v (NumPy fancy indexing, item assignment, broadcasting, axis sums) -- both "
@@ -80,7 +89,8 @@ TRUSTED = ["translator/tr_tpt.py (fail-closed symbolic reading of _I_m_Q / commi
            "for double matrices that are not exactly row-stochastic (row sums not a power of two) the populations=None "
            "cases hand the eigen-solver's eq_probs output to the model as the populations argument",
            "comparison of doubles with exact rationals at relative tolerance 1e-9"]
-ASSUMPTIONS = ["state indices are non-negative (NumPy's negative-index wrap-around is outside the model)",
+ASSUMPTIONS = ["the model's state indices are non-negative: an index i - n (NumPy's counting from the end, -n <= i - n < 0) is read as the state i "
+               "by the harness before it reaches the model; the real code is handed the negative index",
                "theorems assume duplicate-free, disjoint source and sink lists and exact rational arithmetic",
                "near-symmetric rare-event stream: crossing probabilities 2^-28..2^-35 and largest mean first-passage time <= 2^37 steps "
                "(beyond that the unchanged code's all-pairs table is itself 1e-4..1e-3 off); tolerance relative to the square of the time scale",
@@ -111,7 +121,13 @@ ESSENTIAL_TAGS = ["comm", "comm-multi-sink", "comm-multi-source", "mfpt-sinks", 
                   "large-sparse-200plus-committors", "large-sparse-200plus-mfpt-sinks",
                   # round 3s, third wave
                   "rare-all-pairs-pops-none", "rare-all-pairs-pops-given", "rare-all-pairs-noninteger-lag", "rare-all-pairs-integer-lag-not-1",
-                  "big-1000plus-mfpt-sinks", "big-1000plus-committors", "big-double-well", "big-two-basins", "big-1000plus-sparse-input"]
+                  "big-1000plus-mfpt-sinks", "big-1000plus-committors", "big-double-well", "big-two-basins", "big-1000plus-sparse-input",
+                  # round 3s, fifth wave
+                  "sparse-array-classes-committors", "sparse-array-classes-mfpt-sinks", "sparse-array-classes-mfpt-all",
+                  "sparse-array-classes-large", "sparse-array-classes-int-dtype",
+                  "neg-index-committors", "neg-index-mfpt-sinks", "neg-index-source", "neg-index-sink",
+                  "neg-index-mixed-with-non-negative", "neg-index-minus-one", "neg-index-minus-n", "neg-index-large",
+                  "hist-neg-index", "hist-neg-index-put-in-place", "index-error-below-minus-n"]
 CONTAINERS = ["dense", "csr", "csc", "coo", "lil"]
 TOL = F(1, 10 ** 9)
 
@@ -646,6 +662,105 @@ def _round3s3_cases(rng, big):
     return out
 
 
+def _neg_flags(rng, xs, mode):
+    """which members of an index set are written from the end (i - n): all / none / mixed (both kinds when there are two
+    members or more)"""
+    k = len(xs)
+    if mode in ("all", "none") or k == 1:
+        return [0 if mode == "none" else 1] * k
+    while True:
+        f = [rng.randint(0, 1) for _ in xs]
+        if any(f) and not all(f):
+            return f
+
+
+NEG_MODES = [("all", "none"), ("none", "all"), ("all", "all"), ("mixed", "mixed"), ("mixed", "none"), ("none", "mixed")]
+
+
+def _negidx_cases(rng, big, sizes, lags):
+    """round 3s, fifth wave: states named by NEGATIVE indices (NumPy's way of counting from the end: -1 is the last state,
+    -n the first) in the source and sink sets -- alone and mixed with non-negative members.  c["src"] / c["snk"] keep the
+    states meant; c["neg"] says which of them the caller writes as i - n (see _given)."""
+    out = []
+    for k in range(60 * (8 if big else 1)):
+        n = rng.choice(sizes)
+        C = _counts(rng, n, rng.random() < 0.5, rng.random() < 0.5)
+        ms, mt = NEG_MODES[k % 6]
+        src, snk = _multi_sets(rng, n) if (k % 5 == 4 and n >= 4) else _sets(rng, n)
+        if k % 3 == 2:
+            if ms == "none":
+                mt = rng.choice(["all", "mixed"])
+            if mt == "none":
+                mt = "all"
+            snk = (snk + src)[:max(len(snk), 2 if n >= 4 else 1)] if k % 6 == 5 else snk
+            c = {"kind": "mfpt_s", "n": n, "counts": C, "snk": snk, "lag": rng.choice(lags)}
+            sets = [("snk", mt)]
+        else:
+            c = {"kind": "comm", "n": n, "counts": C, "src": src, "snk": snk}
+            sets = [("src", ms), ("snk", mt)]
+        # the ends of the index range often: the last state as -1, the first as -n
+        edge = {0: n - 1, 1: 0}.get(k % 4)
+        if edge is not None:
+            key = rng.choice([kk for kk, m in sets if m != "none"])
+            if edge not in c[key]:
+                other = [x for kk, _ in sets for x in c[kk]]
+                if edge in other:      # swap the two states' roles
+                    for kk, _ in sets:
+                        c[kk] = [c[key][0] if x == edge else x for x in c[kk]]
+                c[key] = [edge] + c[key][1:]
+        c["neg"] = {kk: _neg_flags(rng, c[kk], m) for kk, m in sets}
+        for kk, m in sets:
+            if edge is not None and m != "none" and edge in c[kk]:
+                c["neg"][kk][c[kk].index(edge)] = 1
+        c["stream"] = "negidx"
+        out.append(c)
+    # outside the quantifier (correspondence only): a state in both sets, once under each name
+    for k in range(4 * (8 if big else 1)):
+        n = rng.choice(sizes)
+        C = _counts(rng, n, rng.random() < 0.5, rng.random() < 0.5)
+        src, snk = _sets(rng, n)
+        src = src + [snk[0]]
+        out.append({"kind": "comm", "n": n, "counts": C, "src": src, "snk": snk, "stream": "negidx",
+                    "neg": {"src": [0] * (len(src) - 1) + [1], "snk": [0] * len(snk)}})
+    # error clause: a negative index below -n
+    for k in range(9 * (8 if big else 1)):
+        n = rng.choice(sizes)
+        C = _counts(rng, n, rng.random() < 0.5, rng.random() < 0.5)
+        src, snk = _sets(rng, n)
+        bad = -n - 1 - rng.choice([0, 0, 1, 5])
+        if k % 3 == 0:
+            c = {"kind": "comm", "n": n, "counts": C, "src": src, "snk": snk, "badneg": ["src", bad]}
+        elif k % 3 == 1:
+            c = {"kind": "comm", "n": n, "counts": C, "src": src, "snk": snk, "badneg": ["snk", bad]}
+        else:
+            c = {"kind": "mfpt_s", "n": n, "counts": C, "snk": snk, "lag": "1", "badneg": ["snk", bad]}
+        c["stream"] = "negidx"
+        out.append(c)
+    # history probes: the caller's index-set objects hold negative members from the start, or are given them in place
+    hs = [h for h in _hist_cases(rng, 9 * (4 if big else 1), [3, 4, 4, 5], lags) if h["phases"][0]["kind"] != "mfpt_a"]
+    for k, h in enumerate(hs):
+        for j, ph in enumerate(h["phases"]):
+            if k % 2 == 0 or j == len(h["phases"]) - 1:
+                keys = [kk for kk in ("src", "snk") if kk in ph]
+                ph["neg"] = {kk: _neg_flags(rng, ph[kk], "all" if (k // 2) % 2 == 0 else "mixed") for kk in keys}
+        h["stream"] = "negidx"
+        out.append(h)
+    # many states (oracle only)
+    for kind, n in [("comm", 80), ("mfpt_s", 120), ("comm", 250)] * (3 if big else 1):
+        C = _large_counts(rng, n, rng.choice([0.03, 0.05, 0.07]), rng.random() < 0.5)
+        perm = rng.sample(range(n), 6)
+        if kind == "comm":
+            c = {"kind": "comm", "n": n, "counts": C, "src": perm[:rng.randint(1, 3)], "snk": perm[3:3 + rng.randint(1, 3)]}
+            c["neg"] = {"src": _neg_flags(rng, c["src"], rng.choice(["all", "mixed", "none"])),
+                        "snk": _neg_flags(rng, c["snk"], rng.choice(["all", "mixed"]))}
+        else:
+            c = {"kind": "mfpt_s", "n": n, "counts": C, "snk": perm[:rng.randint(1, 3)], "lag": rng.choice(lags)}
+            c["neg"] = {"snk": _neg_flags(rng, c["snk"], rng.choice(["all", "mixed"]))}
+        c["stream"] = "large"
+        out.append(c)
+    return out
+
+
 def _hist_cases(rng, count, sizes, lags):
     """history probes: the caller keeps ONE matrix object / index-set objects / populations object and
        call 0: computes; then overwrites the returned array in place (as after every call)
@@ -881,6 +996,8 @@ def generate(rng, tier):
                             cases.append({"kind": "mfpt_s", "n": n, "counts": C, "snk": list(snk), "lag": "5/2"})
     # round 3s (third wave): rarely visited states through the all-pairs table, 1000+-state slowly mixing chains
     cases += _round3s3_cases(rng, big)
+    # round 3s (fifth wave): states named by negative indices
+    cases += _negidx_cases(rng, big, sizes, lags)
     return cases
 
 
@@ -901,7 +1018,11 @@ INT_LAYOUTS = ["dense-i64", "dense-i32", "dense-bool", "dense-u8", "csr-i64", "c
 # ... and the remaining scipy containers, used in the many-state stream
 MORE_SPARSE = ["dok", "bsr", "dia"]
 _DT = {"i64": np.int64, "i32": np.int32, "bool": np.bool_, "u8": np.uint8}
-ALL_CONTAINERS = CONTAINERS + LAYOUTS + INT_LAYOUTS + MORE_SPARSE + [REALLOC]
+# round 3s, fifth wave: SciPy's sparse ARRAY classes (`*` is elementwise on them, `@` the product; every one the installed
+# SciPy offers -- the unchanged code handles all seven), also with an integer / boolean dtype for 0/1 matrices
+ARRAYS = ["csr-arr", "csc-arr", "coo-arr", "lil-arr", "dok-arr", "bsr-arr", "dia-arr"]
+INT_ARRAYS = ["csc-arr-i64", "coo-arr-i32", "lil-arr-bool", "dok-arr-i64"]
+ALL_CONTAINERS = CONTAINERS + LAYOUTS + INT_LAYOUTS + MORE_SPARSE + ARRAYS + INT_ARRAYS + [REALLOC]
 GAP = 0.375     # what the cells between the elements of the strided view hold
 
 
@@ -914,10 +1035,10 @@ def _names(c):
             out = nm if out is None else [x for x in out if x in nm]
         return out
     if c.get("stream") == "large":
-        return CONTAINERS + MORE_SPARSE + ["dense-f"]
-    out = CONTAINERS + LAYOUTS
+        return CONTAINERS + MORE_SPARSE + ["dense-f"] + ARRAYS
+    out = CONTAINERS + LAYOUTS + ARRAYS
     if _zero_one(c["counts"]):
-        out = out + INT_LAYOUTS
+        out = out + INT_LAYOUTS + INT_ARRAYS
     # float32 input: only where the conversion is exact (dyadic chain) and the code computes in double anyway (with
     # populations=None the eigen-solver runs in single precision: ~1e-7, nothing the property speaks about)
     single = c["kind"] == "mfpt_a" and c["pops"] == "none"
@@ -929,20 +1050,27 @@ def _names(c):
     return out
 
 
+def _parse(name):
+    """container name -> (format, sparse ARRAY class?, dtype tag)"""
+    parts = name.split("-")
+    return parts[0], "arr" in parts[1:], next((p for p in parts[1:] if p in _DT), "")
+
+
 def _mk(name, T):
     """the container `name` holding the matrix T -> (X, same); same(T') says whether X (still) is that container, with
     that layout / dtype / writeability, holding exactly T' (and nothing around a view was touched)"""
     import scipy.sparse as sp
     n = len(T)
-    fmt, _, dt = name.partition("-")
+    fmt, arr, dt = _parse(name)
     if fmt in SPARSE + MORE_SPARSE:
-        X = getattr(sp, fmt + "_matrix")(T.astype(_DT[dt]) if dt else T)
+        cls = getattr(sp, fmt + ("_array" if arr else "_matrix"))
+        X = cls(T.astype(_DT[dt]) if dt else T)
         nnz, dtype = X.nnz, X.dtype
         if dt and not (X.toarray() == T).all():
             raise RuntimeError("%s does not hold the matrix exactly" % name)
 
         def same(T2):
-            return bool(sp.issparse(X) and X.format == fmt and X.shape == T2.shape and X.dtype == dtype
+            return bool(type(X) is cls and sp.issparse(X) and X.format == fmt and X.shape == T2.shape and X.dtype == dtype
                         and (dt or dtype == np.float64) and X.nnz == nnz and (X.toarray() == T2).all())
         return X, same
     base = None
@@ -989,14 +1117,18 @@ def _mk(name, T):
 def _overwrite(name, X, T2):
     """the caller puts another model into the SAME object (same buffer, same sparsity pattern)"""
     import scipy.sparse as sp
-    if name in ("csr", "csc", "coo"):
-        Y = getattr(sp, name + "_matrix")(T2)
+    fmt = _parse(name)[0]
+    if fmt in ("csr", "csc", "coo", "bsr", "dia"):
+        Y = type(X)(T2)
         if Y.data.shape != X.data.shape:
             raise RuntimeError("history probe: sparsity patterns differ")
-        X.data[:] = Y.data
-    elif name == "lil":
+        X.data[...] = Y.data
+    elif fmt == "lil":
         for i in range(len(T2)):
             X[i, :] = T2[i]
+    elif fmt == "dok":
+        for i, j in zip(*np.nonzero(T2)):
+            X[int(i), int(j)] = T2[i, j]
     else:
         ro = not X.flags.writeable
         if ro:
@@ -1008,16 +1140,18 @@ def _overwrite(name, X, T2):
 
 def _setform(name, xs):
     """the index sets are handed over in the forms a caller may use (one form per container)"""
-    if name in ("csr", "dense-tview"):
+    if name in ("csr", "dense-tview", "dia-arr"):
         return np.array(xs, dtype=np.int64)
-    if name in ("csc", "dense-neg"):
+    if name in ("csc", "dense-neg", "csc-arr", "bsr-arr"):
         return tuple(xs)
-    if name in ("coo", "dense-ro"):
+    if name in ("coo", "dense-ro", "coo-arr"):
         a = np.array(xs, dtype=np.int32 if name == "coo" else np.int64)
         a.setflags(write=False)
         return a
-    if name == "dense-f":
+    if name in ("dense-f", "dok-arr"):
         return np.array(xs, dtype=np.int64).reshape((-1, 1))
+    if name == "csr-arr":
+        return np.array(xs, dtype=np.int16)
     return list(xs)
 
 
@@ -1062,13 +1196,27 @@ def _pops_of(c, T):
     return np.asarray(eq_probs(T.copy()), dtype=float)
 
 
+def _given(c, key):
+    """the index set as the caller hands it over: c[key] holds the states meant (0..n-1; what the model and the oracle
+    work with); members flagged in c["neg"][key] are written the NumPy way from the end (i - n), and c["badneg"] adds a
+    negative index below -n (error clause)"""
+    xs = list(c[key])
+    flags = (c.get("neg") or {}).get(key)
+    if flags:
+        xs = [i - c["n"] if f else i for i, f in zip(xs, flags)]
+    bad = c.get("badneg")
+    if bad and bad[0] == key:
+        xs = xs + [bad[1]]
+    return xs
+
+
 class _Args:
     """argument objects of one caller: created once, reused (and updated in place) over the calls of a history"""
 
     def __init__(self, c, name, eq):
         self.name = name
-        self.src = _setform(name, c["src"]) if "src" in c else None
-        self.snk = _setform(name, c["snk"]) if "snk" in c else None
+        self.src = _setform(name, _given(c, "src")) if "src" in c else None
+        self.snk = _setform(name, _given(c, "snk")) if "snk" in c else None
         self.pops = None
         if c["kind"] == "mfpt_a" and c["pops"] == "given":
             self.pops = eq.copy()
@@ -1077,9 +1225,9 @@ class _Args:
 
     def update(self, c, eq):
         if self.src is not None:
-            self.src = _set_in_place(self.src, c["src"])
+            self.src = _set_in_place(self.src, _given(c, "src"))
         if self.snk is not None:
-            self.snk = _set_in_place(self.snk, c["snk"])
+            self.snk = _set_in_place(self.snk, _given(c, "snk"))
         if self.pops is not None:
             ro = not self.pops.flags.writeable
             self.pops.setflags(write=True)
@@ -1090,9 +1238,9 @@ class _Args:
     def same(self, c, eq):
         ok = True
         if self.src is not None:
-            ok = ok and _set_same(self.src, c["src"])
+            ok = ok and _set_same(self.src, _given(c, "src"))
         if self.snk is not None:
-            ok = ok and _set_same(self.snk, c["snk"])
+            ok = ok and _set_same(self.snk, _given(c, "snk"))
         if self.pops is not None:
             ok = ok and self.pops.shape == eq.shape and bool((self.pops == eq).all())
         return ok
@@ -1122,6 +1270,13 @@ def _references(c, T, eq):
         res["lag1"] = _call(lambda: mfpts(T.copy(), populations=None if pops is None else pops.copy(), lagtime=1.))[0]
     if c["kind"] == "mfpt_s":
         res["lag1"] = _call(lambda: mfpts(T.copy(), sinks=list(c["snk"]), lagtime=1.))[0]
+    if c.get("neg") and not c.get("badneg"):
+        # the same call with every state named by its non-negative index
+        from enspara.tpt import committors
+        if c["kind"] == "comm":
+            res["nonneg"] = _call(lambda: committors(T.copy(), list(c["src"]), list(c["snk"])))[0]
+        elif c["kind"] == "mfpt_s":
+            res["nonneg"] = _call(lambda: mfpts(T.copy(), sinks=list(c["snk"]), lagtime=lag))[0]
     return res
 
 
@@ -1193,8 +1348,8 @@ def _run_hist(c):
 
 
 # ---- 1000+-state chains (stream `big`): sparse integer counts, results as plain lists, judged in floating point
-BIG_CONTAINERS = ["dense", "csr"]
-BIG_MORE = ["dense-f", "csc"]       # thorough tier
+BIG_CONTAINERS = ["dense", "csr", "coo-arr"]
+BIG_MORE = ["dense-f", "csc", "csr-arr"]       # thorough tier
 
 
 def _big_tprob(c):
@@ -1225,18 +1380,18 @@ def _run_big(c):
     with _one_thread():
         for name in BIG_CONTAINERS + (BIG_MORE if c.get("more") else []):
             X, same = _mk(name, T)
-            snk = _setform(name, c["snk"])
+            snk = _setform(name, _given(c, "snk"))
             if c["what"] == "comm":
-                src = _setform(name, c["src"])
+                src = _setform(name, _given(c, "src"))
                 r, _ = _call(lambda: committors(X, src, snk))
-                ok = _set_same(src, c["src"])
+                ok = _set_same(src, _given(c, "src"))
             else:
                 # the populations are handed in (this path does not use them): without them every call would start
                 # with an eigen-decomposition of the 1000-state matrix
                 pops = np.full(n, 1.0 / n)
                 r, _ = _call(lambda: mfpts(X, sinks=snk, populations=pops, lagtime=lag))
                 ok = bool((pops == 1.0 / n).all())
-            r["unchanged"] = bool(ok and same(T) and _set_same(snk, c["snk"]))
+            r["unchanged"] = bool(ok and same(T) and _set_same(snk, _given(c, "snk")))
             res[name] = r
         if c["what"] == "mfpt_s":
             res["lag1"] = _call(lambda: mfpts(T.copy(), sinks=list(c["snk"]), populations=np.full(n, 1.0 / n), lagtime=1.))[0]
@@ -1338,7 +1493,7 @@ def _in_scope(c):
 
 def _bad_index(c):
     n = c["n"]
-    return any(i >= n for i in c.get("src", []) + c.get("snk", []))
+    return any(i >= n for i in c.get("src", []) + c.get("snk", [])) or bool(c.get("badneg"))
 
 
 def _close(a, b, tol=TOL):
@@ -1360,6 +1515,8 @@ def _phase_text(c, k):
         what.append("the same matrix object was overwritten in place with another model")
     if ph[k].get("src") != ph[k - 1].get("src") or ph[k].get("snk") != ph[k - 1].get("snk"):
         what.append("the same index-set objects were given other members in place")
+    elif ph[k].get("neg") != ph[k - 1].get("neg"):
+        what.append("the same index-set objects were given other names (i - n) of the same states in place")
     return "; ".join(what)
 
 
@@ -1413,6 +1570,14 @@ def oracle(c, r):
 
     def close_at(j):
         return close if ctol is None else (lambda a, b: abs(a - b) <= ctol[j])
+    # a state named from the end (i - n) is the state i
+    if "nonneg" in r:
+        ref = r["nonneg"]
+        if "val" not in ref or len(ref["val"]) != len(r["dense"]["val"]) or not all(
+                _close(F(a), F(b)) for a, b in zip(r["dense"]["val"], ref["val"])):
+            out.append(("negative-index-equivalence", "%s with sources %s sinks %s gives %s, with the non-negative names of the same states "
+                        "(sources %s sinks %s) %s" % (c["kind"], _given(c, "src") if "src" in c else None, _given(c, "snk"),
+                                                     r["dense"]["val"][:40], c.get("src"), c["snk"], str(ref)[:600])))
     # dense and sparse inputs give the same values
     d = _flat(r["dense"]["val"])
     for name in CONTAINERS[1:]:
@@ -1522,10 +1687,12 @@ def _model(c, r=None, g=""):
     """g = "": the hand-written model (Model/TPT.v); g = "_g": the definitions regenerated from the source
     (Gen/TptGen.v through Model/TPTGen.v)"""
     n = cn(c["n"])
+    # the states meant (a name i - n has been read as i); an index below -n is as far outside as the index n
+    canon = lambda key: c[key] + ([c["n"]] if (c.get("badneg") or [None])[0] == key else [])
     if c["kind"] == "comm":
-        return "(committors%s %s %s %s %s)" % (g, n, _qmat(c), _nl(c["src"]), _nl(c["snk"]))
+        return "(committors%s %s %s %s %s)" % (g, n, _qmat(c), _nl(canon("src")), _nl(canon("snk")))
     if c["kind"] == "mfpt_s":
-        return "(mfpts_sinks%s %s %s %s %s)" % (g, n, _qmat(c), _nl(c["snk"]), cq(F(c["lag"])))
+        return "(mfpts_sinks%s %s %s %s %s)" % (g, n, _qmat(c), _nl(canon("snk")), cq(F(c["lag"])))
     if c["pops"] == "none" and _dyadic(c["counts"]):
         # exactly stochastic double matrix: the model computes the stationary vector itself
         return "(mfpts_all_default%s %s %s %s)" % (g, n, _qmat(c), cq(F(c["lag"])))
@@ -1566,9 +1733,9 @@ def coq_check(c, r):
             exp = "(@None %s)" % ty
         else:
             return "false"      # NaN/inf or an unexpected exception: never what the model predicts
-        parts.append("CaseLib.opt_eqb %s m %s" % (close, exp))
-        if x == r["dense"] and name != "dense":
-            parts.pop()         # identical to the dense result: already compared
+        part = "CaseLib.opt_eqb %s m %s" % (close, exp)
+        if part not in parts:   # identical to the result of an earlier container: already compared
+            parts.append(part)
     # m: the definitions regenerated from the current source, compared with the implementation; the hand-written model
     # must give the very same value (that the two are equal is also a theorem: Proof/TptGenProofs.v)
     # (evaluated for the chains with at most 4 states only: it doubles the cost of a case)
@@ -1652,6 +1819,10 @@ def tags(c, r):
             t.append("hist-all-calls-returned")
         if "dense-f32" in _names(c):
             t.append("hist-float32")
+        if any(x.get("neg") for x in ph) and all("val" in rx["dense"] for rx in r["phases"]):
+            t.append("hist-neg-index")
+            if not ph[0].get("neg"):
+                t.append("hist-neg-index-put-in-place")
         return t
     if c["kind"] == "big":
         t = ["big", "n>=1000"]
@@ -1668,7 +1839,8 @@ def tags(c, r):
     C = c["counts"]
     n = c["n"]
     if _bad_index(c):
-        return ["index-error"] if r["dense"].get("err") == "IndexError" else ["index-error-missed"]
+        t = ["index-error"] if r["dense"].get("err") == "IndexError" else ["index-error-missed"]
+        return t + (["index-error-below-minus-n"] if c.get("badneg") and t == ["index-error"] else [])
     t.append("reversible" if all(C[i][j] == C[j][i] for i in range(n) for j in range(n)) else "nonreversible")
     t.append("dyadic" if _dyadic(C) else "nondyadic")
     t.append("n=%d" % n)
@@ -1727,6 +1899,29 @@ def tags(c, r):
         t.append("large-sparse-" + what)
         if n >= 200:
             t.append("large-sparse-200plus-" + what)
+    # round 3s, fifth wave
+    if _in_scope(c) and all("val" in r.get(nm, {}) for nm in ARRAYS):
+        t.append("sparse-array-classes-" + what)
+        if c.get("stream") == "large":
+            t.append("sparse-array-classes-large")
+    if all("val" in r.get(nm, {}) for nm in INT_ARRAYS if not (nm.endswith("-bool") and nm not in r)):
+        t.append("sparse-array-classes-int-dtype")
+    fl = c.get("neg")
+    if fl and _in_scope(c) and "val" in r["dense"]:
+        t.append("neg-index-" + what)
+        if any(fl.get("src") or []):
+            t.append("neg-index-source")
+        if any(fl.get("snk") or []):
+            t.append("neg-index-sink")
+        if any(any(f) and not all(f) for f in fl.values()):
+            t.append("neg-index-mixed-with-non-negative")
+        named = [i for kk, f in fl.items() for i, b in zip(c[kk], f) if b]
+        if n - 1 in named:
+            t.append("neg-index-minus-one")
+        if 0 in named:
+            t.append("neg-index-minus-n")
+        if c.get("stream") == "large":
+            t.append("neg-index-large")
     return t
 
 
